@@ -487,10 +487,11 @@ def r4_double_definition(R) -> None:
             ok = g.holds(rs[0].id, f'{a0} is not None') and g.holds(rs[0].id, f'{a1} is not None') and g.holds(rs[0].id, f'{a0} != {a1}')
             R.check(bool(ok), q, 'double-def-guard', 'two different non-None definitions raise ParserError',
                     f'ParserError guard is {atoms}', where=g.where(rs[0]))
+        # by role: the call whose arguments are the two mentions' `<field>` (whatever the result is called)
         calls = {}
         for n in iter_own_nodes(f.node):
-            if isinstance(n, ast.Assign) and is_call(n.value, 'resolve_strings'):
-                calls[text(n.targets[0])] = n.value
+            if isinstance(n, ast.Call) and is_call(n, 'resolve_strings') and len(n.args) == 2 and isinstance(n.args[0], ast.Attribute):
+                calls.setdefault(n.args[0].attr, n)
         for nm in ('equation', 'code'):
             c = calls.get(nm)
             ok = c is not None and [text(a) for a in c.args] == [f'self.{nm}', f'other.{nm}']
